@@ -36,6 +36,12 @@ struct Result {
     bool skipped = false;        // precondition of the harness not met
     bool guardsOk = true;        // guard bytes around caller buffers intact
     bool leftoverOnError = false;  // (linked polygon) blocks live after error
+    // write-trap on const inputs (constmem.h): stores the library made to its const inputs during the call
+    int constStores = 0;           // all trapped stores
+    int constChanged = 0;          // ... that changed the stored bytes
+    uint64_t constFirstOffset = 0; // slab offset of the first value-changing store
+    int64_t constFirstStep = 0;    // scheduler step at which it happened
+    bool constFirstShared = false; // it hit an input object shared with other tasks
     std::vector<uint8_t> out;    // canonical outputs (only when successful)
     uint64_t digest() const;
     bool sameAs(const Result &o) const {
@@ -61,6 +67,7 @@ struct ExecOpts {
     // a function, so a result that depends on it depends on the calls made earlier on the same thread
     // (ambient-state fault injection; 0 for every reference execution)
     int entryErrno = 0;
+    bool sealInputs = false;   // C18: const inputs live in read-only memory while the library runs
     void (*afterLinked)(int64_t rc, void *user) = nullptr;
     void *user = nullptr;
 };
